@@ -332,7 +332,7 @@ def documents(ctx):
     docs.append(((FIXTURES / "kitchen-sink.graphql").read_text(), {}, "fixture", False))
     docs.append(((FIXTURES / "schema-kitchen-sink.graphql").read_text(), {"allow_type_system": True}, "fixture", False))
     docs.append(((FIXTURES / "introspection-schema.graphql").read_text(), {"allow_type_system": True}, "fixture", False))
-    for _ in range(ctx.n(60, 500)):
+    for _ in range(ctx.n(60, 380)):
         r = ctx.rng.random()
         if r < 0.4:
             docs.append((D.gen_executable(ctx.rng, True), {"experimental_fragment_variables": True}, "gen-exec", False))
